@@ -20,9 +20,11 @@
 (*   FreqRouteCorrect, FreqVarCorrect, OverlapRouteCorrect  for EVERY word  *)
 (*   OpRouteCorrect, Linearity, ViaApply, ComplexSplit, VarSplit  for the   *)
 (*   operator of the state.                                                 *)
-(* Export (G): ExportState prints every distinct reachable state with the   *)
-(* exact <psi|P|psi> of every Pauli word; EndOfBehaviour prints complete    *)
-(* behaviours (circuit, operator, exact value and variance numerators).     *)
+(*   Finish        close the behaviour (operator complete) and export it    *)
+(* Export (G): AllWordsCorrectAndExport prints every distinct reachable     *)
+(* state with the exact <psi|P|psi> of every Pauli word (exhaustive runs);  *)
+(* the action Finish prints complete behaviours: circuit, operator, exact   *)
+(* value and variance numerators, un-selected mixture values (-simulate).   *)
 (***************************************************************************)
 EXTENDS C02Defs, Json
 
